@@ -484,3 +484,18 @@ def is_transparent(node):
   a = node.ast
   return node.kind == 'stmt' and isinstance(a, ast.Expr) and \
       cfgm.is_log_call(a.value)
+
+
+def resolved(finfo, e, depth=3):
+  """[e] if e is not a local name; else the expressions assigned to that name
+  in the function (followed through name-to-name copies, bounded).  Lets a
+  rule accept `f(g(x))` and `t = g(x); f(t)` alike."""
+  if not isinstance(e, ast.Name) or depth == 0:
+    return [e]
+  defs = resolve_local(finfo, e.id)
+  if not defs:
+    return [e]
+  out = []
+  for d in defs:
+    out.extend(resolved(finfo, d, depth - 1))
+  return out
